@@ -290,6 +290,11 @@ def run(tier, seed, drv):
         n_cons = rng.randrange(1, 4)
         ops, handlers, rank = gen_case(rng, rng.randrange(2, 12), topics, n_cons, reentrant=True, force_ok=rng.random() < 0.85)
         cases.append((ops, handlers, rank, n_cons))
+    # LONG logs: thousands of messages on a topic before a consumer joins (replay of all of them, in order), then more
+    for n_msgs in ((1500,) if tier == "quick" else (1500, 5000)):
+        ops = [{"o": "sub", "k": 0, "topics": ["t0"]}] + [{"o": "pub", "T": "t0" if i % 3 else "t1", "v": 1000 + i} for i in range(n_msgs)]
+        ops += [{"o": "sub", "k": 1, "topics": ["t1", "t0"]}] + [{"o": "pub", "T": "t1", "v": 900_000 + i} for i in range(20)] + [{"o": "sub", "k": 0, "topics": ["t1"]}]
+        cases.append((ops, [], {"t0": 0, "t1": 1}, 2))
     res.exhaustive = True
     loop = asyncio.new_event_loop()
     replies = drv.eval([to_request(o, h, n) for o, h, r, n in cases])
@@ -301,8 +306,8 @@ def run(tier, seed, drv):
             err = None
         except Exception as e:  # e.g. set changed size during iteration
             recv, produced, err = None, None, f"{type(e).__name__}:{e}"
-        res.case(str((ops, handlers)), nontrivial=any(o["o"] == "pub" for o in ops) and any(o["o"] == "sub" for o in ops),
-                 sample={"ops": ops, "handlers": handlers, "model_recv": rep.get("recv")})
+        res.case(str((ops, handlers)) if len(ops) < 100 else f"long:{len(ops)}", nontrivial=any(o["o"] == "pub" for o in ops) and any(o["o"] == "sub" for o in ops),
+                 sample={"ops": ops, "handlers": handlers, "model_recv": rep.get("recv")} if len(ops) < 100 else None)
         res.count("within-hypotheses" if ok else "outside-hypotheses")
         res.count("reentrant" if handlers else "plain")
         case = {"ops": ops, "handlers": handlers, "n_cons": n_cons, "rank": rank, "short_lived": short}
